@@ -41,6 +41,82 @@ type run struct {
 	deposited map[int]*big.Int
 	withdrawn map[int]*big.Int
 	nonce     uint64
+	relayer   sdk.AccAddress // registered bridger on every chain (signs MsgRequestBatch)
+	// model of the external bridge contracts (FxBridgeLogic.submitBatch): every batch fxcore ever built, the
+	// contract's state_lastBatchNonces[token] (PER TOKEN), and which batches' timeout height has passed
+	ext     []*extBatch
+	extLast map[[2]int]int // (chain, group) -> last executed batch nonce on the external chain
+}
+
+type extTx struct{ id, amount, fee int }
+
+type extBatch struct {
+	c, g, nonce int
+	txs         []extTx
+	expired     bool
+}
+
+func (b *extBatch) value() int {
+	v := 0
+	for _, t := range b.txs {
+		v += t.amount + t.fee
+	}
+	return v
+}
+
+// the external contract still accepts the batch: require(state_lastBatchNonces[token] < nonce), block.number < timeout
+func (r *run) extAccepts(b *extBatch) bool {
+	return !b.expired && r.extLast[[2]int{b.c, b.g}] < b.nonce
+}
+
+// syncExt records batches newly built on fxcore (the oracles sign whatever is stored)
+func (r *run) syncExt() {
+	for c := range bx.Chains {
+		for _, b := range r.w.Keeper(c).GetOutgoingTxBatches(r.w.S.Ctx) {
+			known := false
+			for _, e := range r.ext {
+				if e.c == c && e.nonce == int(b.BatchNonce) {
+					known = true
+				}
+			}
+			if known {
+				continue
+			}
+			e := &extBatch{c: c, g: r.w.GroupByContract(c, b.TokenContract), nonce: int(b.BatchNonce)}
+			for _, tx := range b.Transactions {
+				e.txs = append(e.txs, extTx{int(tx.Id), int(tx.Token.Amount.Int64()), int(tx.Fee.Amount.Int64())})
+			}
+			sort.Slice(e.txs, func(i, j int) bool { return e.txs[i].id < e.txs[j].id })
+			r.ext = append(r.ext, e)
+		}
+	}
+}
+
+// extras appended to the observation line: ghost counters (deposits / executed withdrawals per group as accounted by
+// the harness) and the external contracts' last executed batch nonce per (chain, token)
+func (r *run) extras() string {
+	var p []string
+	for _, g := range r.w.Groups {
+		if r.deposited[g.G].Sign() != 0 {
+			p = append(p, fmt.Sprintf("D.g%d=%s", g.G, r.deposited[g.G]))
+		}
+	}
+	for _, g := range r.w.Groups {
+		if r.withdrawn[g.G].Sign() != 0 {
+			p = append(p, fmt.Sprintf("W.g%d=%s", g.G, r.withdrawn[g.G]))
+		}
+	}
+	for c := range bx.Chains {
+		for _, g := range r.w.Groups {
+			if n := r.extLast[[2]int{c, g.G}]; n != 0 {
+				p = append(p, fmt.Sprintf("xl%d.%d=%d", c, g.G, n))
+			}
+		}
+	}
+	if len(p) == 0 {
+		return ""
+	}
+	return " " + strings.Join(p, " ")
 }
 
 func bi(n int) *big.Int       { return big.NewInt(int64(n)) }
@@ -98,9 +174,21 @@ func (r *run) exec(line string, f func() string, expect map[[2]int]int, dep, wd 
 	if res != "ok" {
 		kind = "err"
 	}
-	obs := kind + " " + r.w.Dump()
-	r.out.Emit(line, obs)
 	op := strings.SplitN(line, " ", 2)[0]
+	if wdCheck != nil {
+		wdCheck(res) // op-specific monitor + environment bookkeeping (external contract state)
+	}
+	if kind == "ok" {
+		for _, t := range dep {
+			r.deposited[t.g].Add(r.deposited[t.g], bi(t.n))
+		}
+		for _, t := range wd {
+			r.withdrawn[t.g].Add(r.withdrawn[t.g], bi(t.n))
+		}
+	}
+	r.syncExt()
+	obs := kind + " " + strings.TrimSpace(r.w.Dump()+r.extras())
+	r.out.Emit(line, obs)
 	r.out.Count("op:" + op + ":" + kind)
 	if kind == "err" {
 		e := res
@@ -114,15 +202,6 @@ func (r *run) exec(line string, f func() string, expect map[[2]int]int, dep, wd 
 		r.out.Count("errclass:" + classify(res))
 	} else {
 		r.out.Nontrivial(op + "|ok")
-		for _, t := range dep {
-			r.deposited[t.g].Add(r.deposited[t.g], bi(t.n))
-		}
-		for _, t := range wd {
-			r.withdrawn[t.g].Add(r.withdrawn[t.g], bi(t.n))
-		}
-	}
-	if wdCheck != nil {
-		wdCheck(res)
 	}
 	// monitor 1: conservation on real balances
 	held := r.w.Held()
@@ -136,6 +215,29 @@ func (r *run) exec(line string, f func() string, expect map[[2]int]int, dep, wd 
 		rhs.Sub(rhs, r.withdrawn[g.G])
 		if lhs.Cmp(rhs) != 0 {
 			r.out.Violate(fmt.Sprintf("conservation broken for %s token after %s: held+inFlight=%s, initial+deposits-withdrawals=%s", kindName(g.Kind), op, lhs, rhs))
+		}
+	}
+	// monitor 1b: a batch the external chain can still execute must still be pending on fxcore, unchanged
+	for _, e := range r.ext {
+		if !r.extAccepts(e) {
+			continue
+		}
+		b := r.w.Keeper(e.c).GetOutgoingTxBatch(r.w.S.Ctx, r.tokenContract(e.c, e.g), uint64(e.nonce))
+		same := b != nil && len(b.Transactions) == len(e.txs)
+		if same {
+			have := map[int][2]int{}
+			for _, tx := range b.Transactions {
+				have[int(tx.Id)] = [2]int{int(tx.Token.Amount.Int64()), int(tx.Fee.Amount.Int64())}
+			}
+			for _, t := range e.txs {
+				if have[t.id] != [2]int{t.amount, t.fee} {
+					same = false
+				}
+			}
+		}
+		if !same {
+			r.out.Violate(fmt.Sprintf("batch still executable on the external chain (nonce above the contract's last executed nonce of its token, not timed out) is no longer pending on fxcore after %s: its transfers can be refunded here and still be paid out there (%s token)", op, kindName(r.w.Groups[e.g].Kind)))
+			e.expired = true // report once
 		}
 	}
 	// monitor 2: every holder's holdings change by exactly the stated delta
@@ -278,6 +380,14 @@ func (r *run) poolTxs() []poolRec {
 func (r *run) cancel(c, id, u int, pre bool, tx *poolRec) {
 	w := r.w
 	exp := map[[2]int]int{}
+	if tx == nil { // the malformed stream may hit an existing transfer of this sender by chance
+		for _, t := range r.poolTxs() {
+			if t.c == c && t.id == id && t.u == u {
+				t := t
+				tx = &t
+			}
+		}
+	}
 	if tx != nil {
 		exp[[2]int{u, tx.g}] = tx.amount + tx.fee
 	}
@@ -315,43 +425,93 @@ func (r *run) tokenContract(c, g int) string {
 	return helpers.GenExternalAddr(r.chain(c))
 }
 
-func (r *run) batch(c, g, baseFee int) {
+// batch: MsgRequestBatch through the real message router, signed by the registered bridger or by a plain user
+func (r *run) batch(c, g, baseFee, minFee int, asOracle bool) {
 	w := r.w
-	r.exec(fmt.Sprintf("batch %d %d %d", c, g, baseFee), func() string {
-		return w.Atomic(func(ctx sdk.Context) error {
-			_, err := w.Keeper(c).BuildOutgoingTxBatch(ctx, r.tokenContract(c, g), helpers.GenExternalAddr(r.chain(c)), 100, sdkmath.ZeroInt(), si(baseFee))
-			return err
-		})
-	}, nil, nil, nil, nil)
+	denom := w.Groups[g].Bridge[c]
+	if denom == "" {
+		denom = crosschaintypes.NewBridgeDenom(r.chain(c), helpers.GenExternalAddr(r.chain(c)))
+	}
+	sender := r.relayer
+	ao := 1
+	if !asOracle {
+		sender = w.Users[0].AccAddress()
+		ao = 0
+	}
+	before := r.inFlightTotal()
+	r.exec(fmt.Sprintf("batch %d %d %d %d %d", c, g, baseFee, minFee, ao), func() string {
+		return w.Msg(&crosschaintypes.MsgRequestBatch{Sender: sender.String(), Denom: denom, MinimumFee: si(minFee),
+			FeeReceive: helpers.GenExternalAddr(r.chain(c)), ChainName: r.chain(c), BaseFee: si(baseFee)})
+	}, nil, nil, nil, func(res string) {
+		// a batch request moves no value: whatever left the pool must be in a batch
+		if after := r.inFlightTotal(); after.Cmp(before) != 0 {
+			r.out.Violate(fmt.Sprintf("batch request (%s) changed the value queued or batched from %s to %s", map[bool]string{true: "accepted", false: "rejected"}[res == "ok"], before, after))
+		}
+	})
 }
 
+func (r *run) inFlightTotal() *big.Int {
+	infl, _ := r.w.InFlight()
+	sum := new(big.Int)
+	for _, v := range infl {
+		sum.Add(sum, v)
+	}
+	return sum
+}
+
+func (r *run) findExt(c, g, nonce int) *extBatch {
+	for _, e := range r.ext {
+		if e.c == c && e.g == g && e.nonce == nonce {
+			return e
+		}
+	}
+	return nil
+}
+
+// executed: the external chain executed batch (g, nonce) and the claim is observed.  The amount paid out on the
+// external chain is what the signed batch says (ext model), not what fxcore still remembers.
 func (r *run) executed(c, g, nonce int) {
 	w := r.w
 	var wd []tok
-	b := w.Keeper(c).GetOutgoingTxBatch(w.S.Ctx, r.tokenContract(c, g), uint64(nonce))
-	if b != nil {
-		for _, tx := range b.Transactions {
-			wd = append(wd, tok{g, int(tx.Token.Amount.Int64() + tx.Fee.Amount.Int64())})
+	e := r.findExt(c, g, nonce)
+	acceptable := e != nil && r.extAccepts(e)
+	if acceptable {
+		for _, t := range e.txs {
+			wd = append(wd, tok{g, t.amount + t.fee})
 		}
 	}
 	r.exec(fmt.Sprintf("executed %d %d %d", c, g, nonce), func() string {
-		if b == nil {
-			return "err:batch not found"
+		if !acceptable {
+			return "err:the external chain does not execute this batch"
 		}
 		return w.Atomic(func(ctx sdk.Context) error {
 			w.Keeper(c).OutgoingTxBatchExecuted(ctx, r.tokenContract(c, g), uint64(nonce))
 			return nil
 		})
-	}, nil, nil, wd, nil)
+	}, nil, nil, wd, func(res string) {
+		if !acceptable {
+			return
+		}
+		r.extLast[[2]int{c, g}] = nonce
+		if res != "ok" {
+			r.out.Violate(fmt.Sprintf("observed execution of a batch the external chain accepted cannot be accounted on fxcore (%s): the withdrawal is paid out there without a matching decrease here (%s token)", classify(res), kindName(w.Groups[g].Kind)))
+		}
+	})
 }
 
+// btimeout: the batch's external timeout height has passed (environment) and fxcore cancels it
 func (r *run) btimeout(c, g, nonce int) {
 	w := r.w
+	e := r.findExt(c, g, nonce)
 	r.exec(fmt.Sprintf("btimeout %d %d %d", c, g, nonce), func() string {
 		return w.Atomic(func(ctx sdk.Context) error {
 			return w.Keeper(c).CancelOutgoingTxBatch(ctx, r.tokenContract(c, g), uint64(nonce))
 		})
-	}, nil, nil, nil, nil)
+	}, nil, nil, nil, func(res string) {
+		if res == "ok" && e != nil {
+			e.expired = true
+		}
+	})
 }
 
 func (r *run) bcout(c, u, ref int, ts []tok, pre bool) {
@@ -424,6 +584,14 @@ func (r *run) bcresult(c, nonce int, success bool, cr *callRec, timeout bool) {
 	var wd []tok
 	if timeout {
 		success = false
+	}
+	if cr == nil { // the malformed stream may hit an existing record by chance
+		for _, oc := range r.outCalls() {
+			if oc.c == c && oc.nonce == nonce {
+				oc := oc
+				cr = &oc
+			}
+		}
 	}
 	if cr != nil {
 		if success {
@@ -625,6 +793,140 @@ func (r *run) ercBal(u, g int) int {
 	return int(r.w.BalanceOf(r.w.Groups[g].Erc20, r.w.Users[u].Address()).Int64())
 }
 
+// selectedFees: total fee of the transfers a batch request for (c, g, baseFee) would pick
+func (r *run) selectedFees(c, g, baseFee int) int {
+	tot := 0
+	for _, tx := range r.poolTxs() {
+		if tx.c == c && tx.g == g && tx.fee >= baseFee {
+			tot += tx.fee
+		}
+	}
+	return tot
+}
+
+// randomBatch: batch request with the minimum fee at the boundary of what the pool offers
+func (r *run) randomBatch() {
+	rng := r.rng
+	var g, c int
+	if txs := r.poolTxs(); len(txs) > 0 && rng.Intn(5) > 0 {
+		tx := txs[rng.Intn(len(txs))]
+		g, c = tx.g, tx.c
+	} else {
+		g, c = r.pickGroupChain(false)
+	}
+	baseFee := rng.Intn(3)
+	tot := r.selectedFees(c, g, baseFee)
+	minFee := 1
+	switch rng.Intn(8) {
+	case 0:
+		minFee = tot + 1
+		r.out.Count("gen:batch:minFee=total+1")
+	case 1:
+		minFee = tot
+		r.out.Count("gen:batch:minFee=total")
+	case 2:
+		minFee = tot - 1
+		r.out.Count("gen:batch:minFee=total-1")
+	case 3:
+		minFee = 0
+		r.out.Count("gen:batch:minFee=0")
+	case 4:
+		minFee = 1000
+		r.out.Count("gen:batch:minFee=huge")
+	default:
+		r.out.Count("gen:batch:minFee=1")
+	}
+	if minFee < 0 {
+		minFee = 0
+	}
+	r.batch(c, g, baseFee, minFee, rng.Intn(12) > 0)
+}
+
+// randomSettle: the external chain executes one of the batches it still accepts (any order, so also a higher nonce of
+// one token before a lower nonce of another), or a batch times out; rarely a claim the contract would never emit
+func (r *run) randomSettle() {
+	rng := r.rng
+	var acc []*extBatch
+	for _, e := range r.ext {
+		if r.extAccepts(e) {
+			acc = append(acc, e)
+		}
+	}
+	if len(acc) == 0 || rng.Intn(12) == 0 {
+		g, c := r.pickGroupChain(true)
+		r.executed(c, g, 1+rng.Intn(4))
+		return
+	}
+	e := acc[rng.Intn(len(acc))]
+	lower, other := 0, 0
+	for _, o := range acc {
+		if o.c == e.c && o.nonce < e.nonce {
+			lower++
+			if o.g != e.g {
+				other++
+			}
+		}
+	}
+	if rng.Intn(3) == 0 {
+		r.btimeout(e.c, e.g, e.nonce)
+		return
+	}
+	if lower > 0 {
+		r.out.Count("gen:executed:with-lower-nonce-pending")
+	}
+	if other > 0 {
+		r.out.Count("gen:executed:with-lower-nonce-of-other-token-pending")
+	}
+	r.executed(e.c, e.g, e.nonce)
+}
+
+// batchScenario: several tokens of one chain get transfers and a pending batch each, then the external chain settles
+// them in an arbitrary order while senders try to cancel
+func (r *run) batchScenario() {
+	rng := r.rng
+	c := rng.Intn(2) // eth (5 tokens) or bsc (2 tokens)
+	var gs []int
+	for _, g := range r.w.Groups {
+		if g.OnChain[c] {
+			gs = append(gs, g.G)
+		}
+	}
+	rng.Shuffle(len(gs), func(i, j int) { gs[i], gs[j] = gs[j], gs[i] })
+	if len(gs) > 3 {
+		gs = gs[:2+rng.Intn(2)]
+	}
+	for _, g := range gs {
+		u := rng.Intn(bx.NUsers)
+		if r.w.Groups[g].Kind != bx.KindFX {
+			r.deposit(c, g, u, 20+rng.Intn(20), false)
+		}
+		for i := 0; i < 1+rng.Intn(2); i++ {
+			r.send(c, g, u, 1+rng.Intn(6), 1+rng.Intn(3))
+		}
+	}
+	rng.Shuffle(len(gs), func(i, j int) { gs[i], gs[j] = gs[j], gs[i] })
+	for _, g := range gs {
+		r.batch(c, g, 0, 1, true)
+		if rng.Intn(3) == 0 { // a second, more profitable batch of the same token
+			u := rng.Intn(bx.NUsers)
+			r.send(c, g, u, 1+rng.Intn(4), 4+rng.Intn(3))
+			r.batch(c, g, 0, 1, true)
+		}
+	}
+	r.out.Count("gen:scenario:multi-token-batches")
+	for i := 0; i < 2*len(gs); i++ {
+		switch rng.Intn(4) {
+		case 0:
+			if txs := r.poolTxs(); len(txs) > 0 {
+				tx := txs[rng.Intn(len(txs))]
+				r.cancel(tx.c, tx.id, tx.u, false, &tx)
+			}
+		default:
+			r.randomSettle()
+		}
+	}
+}
+
 func (r *run) randomOp() {
 	rng := r.rng
 	u := rng.Intn(bx.NUsers)
@@ -675,26 +977,9 @@ func (r *run) randomOp() {
 		}
 		r.incfee(tx.c, tx.id, u, g, rng.Intn(5))
 	case k < 60:
-		g, c := r.pickGroupChain(false)
-		r.batch(c, g, rng.Intn(3))
+		r.randomBatch()
 	case k < 68:
-		var all [][3]int
-		for c := range bx.Chains {
-			for _, b := range r.w.Keeper(c).GetOutgoingTxBatches(r.w.S.Ctx) {
-				all = append(all, [3]int{c, r.w.GroupByContract(c, b.TokenContract), int(b.BatchNonce)})
-			}
-		}
-		if len(all) == 0 || rng.Intn(12) == 0 {
-			g, c := r.pickGroupChain(true)
-			r.executed(c, g, 1+rng.Intn(4))
-			return
-		}
-		b := all[rng.Intn(len(all))]
-		if rng.Intn(3) == 0 {
-			r.btimeout(b[0], b[1], b[2])
-		} else {
-			r.executed(b[0], b[1], b[2])
-		}
+		r.randomSettle()
 	case k < 76:
 		c := rng.Intn(len(bx.Chains))
 		r.bcout(c, u, rng.Intn(bx.NUsers), r.tokens(c), rng.Intn(2) == 0)
@@ -738,7 +1023,11 @@ func TestC04(t *testing.T) {
 	for seq := 0; seq < nSeq; seq++ {
 		s := hx.NewSuite(t, 1)
 		w := bx.NewWorld(s)
-		r := &run{w: w, out: out, rng: rng, initial: w.Held(), deposited: map[int]*big.Int{}, withdrawn: map[int]*big.Int{}}
+		r := &run{w: w, out: out, rng: rng, initial: w.Held(), deposited: map[int]*big.Int{}, withdrawn: map[int]*big.Int{}, extLast: map[[2]int]int{}}
+		r.relayer = helpers.NewSigner(helpers.NewEthPrivKey()).AccAddress()
+		for c := range bx.Chains {
+			w.Keeper(c).SetOracleAddrByBridgerAddr(w.S.Ctx, r.relayer, helpers.NewSigner(helpers.NewEthPrivKey()).AccAddress())
+		}
 		for _, g := range w.Groups {
 			r.deposited[g.G] = new(big.Int)
 			r.withdrawn[g.G] = new(big.Int)
@@ -746,6 +1035,8 @@ func TestC04(t *testing.T) {
 		out.Reset(w.S.App.BankKeeper.GetBalance(w.S.Ctx, bx.ModuleAddr("eth"), fxtypes.DefaultDenom).Amount.String())
 		if seq == 0 {
 			r.scripted()
+		} else if seq%2 == 1 {
+			r.batchScenario()
 		}
 		for i := 0; i < nOps; i++ {
 			r.randomOp()
